@@ -19,7 +19,7 @@ PARAMS = {
 }
 ASSUMPTIONS = [
     'finite numbers only (ints, floats, no bool-as-number, no Fraction/Decimal: not JSON-representable)',
-    'Date parameters hold naive datetimes (as the statement says); years >= 1000',
+    'Date parameters hold naive datetimes (as the statement says); years 1..9999',
     'container elements are JSON-representable without nested tuples; dict keys are str',
     'both ends of a DateRange are of the same kind (two dates or two datetimes)',
 ]
